@@ -25,6 +25,14 @@ Theorem c11_roundtrip_no_error : forall ign target paths sep,
 Proof. exact md_write_no_error. Qed.
 Print Assumptions c11_roundtrip_no_error.
 
+(* the same for every line end: LF, CRLF, or the end of the file right after the last path *)
+Theorem c11_roundtrip_line_ends : forall target paths sep eol,
+  wf_target target = true -> forallb wf_path paths = true ->
+  md_deps (md_parse false (md_write_eol target paths sep eol)) = paths /\
+  md_has_error (md_parse false (md_write_eol target paths sep eol)) = false.
+Proof. exact md_roundtrip_eol. Qed.
+Print Assumptions c11_roundtrip_line_ends.
+
 (* interior and trailing colons (which compilers do not escape) are part of the recovered path *)
 Theorem c11_colon_paths : forall target p q sep,
   wf_target target = true -> wf_path p = true -> forallb path_byte_ok q = true ->
@@ -40,6 +48,14 @@ Theorem c11_multi_rule : forall rules,
   md_deps (md_parse true (md_write_rules rules)) = match rules with [] => [] | r :: _ => rule_paths r end.
 Proof. exact md_multi_rule. Qed.
 Print Assumptions c11_multi_rule.
+
+(* several rules, each ended by LF or CRLF, and a last rule with any line end *)
+Theorem c11_multi_rule_line_ends : forall rules target paths sep eol,
+  forallb (fun r => wf_rule (fst r)) rules = true -> wf_target target = true -> forallb wf_path paths = true ->
+  md_deps (md_parse false (md_write_rules_eol rules ++ md_write_eol target paths sep eol)) =
+  flat_map (fun r => rule_paths (fst r)) rules ++ paths.
+Proof. exact md_multi_rule_eol. Qed.
+Print Assumptions c11_multi_rule_line_ends.
 
 (* a malformed file is reported: a first word that is not followed by ':' gives error 2 where the colon was
    expected (for EVERY byte string of that shape) ... *)
